@@ -19,6 +19,10 @@ class NDCubeSlicingMixin(NDSlicingMixin):
         if item is None or (isinstance(item, tuple) and None in item):
             raise IndexError("None indices not supported")
 
+        if (isinstance(item, tuple) and len(item) == len(self.shape) + 1
+                and sum(i is Ellipsis for i in item) == 1):
+            # An Ellipsis that stands for no axis at all is valid numpy indexing.
+            item = tuple(i for i in item if i is not Ellipsis)
         item = tuple(sanitize_slices(item, len(self.shape)))
         # The data are sliced with numpy semantics but the WCS slicing does not interpret
         # negative or out-of-range values, so express the item relative to the array shape
